@@ -37,7 +37,8 @@ ASSUMPTIONS = [
 ]
 SITES = ["dsc.*", "thr.*"]
 INITIAL, TIMEOUT, POLL = 0.25, 0.55, 0.1
-SPAS = [(b"SPA01:02:03:04:05:06", ("10.0.0.1", 10022)), (b"SPA0a:0b:0c:0d:0e:0f", ("10.0.0.2", 10022))]
+# (the first identifier holds a non-ASCII latin-1 byte)
+SPAS = [(b"SPA\xe91:02:03:04:05:06", ("10.0.0.1", 10022)), (b"SPA0a:0b:0c:0d:0e:0f", ("10.0.0.2", 10022))]
 SLOTS = [0, 2, 4, None]
 
 
@@ -60,7 +61,7 @@ def discover(maxreplies, slow=False):
                 mode = sx.choice("filter", 4)
                 kw = {}
                 if mode == 1:
-                    kw["spa_identifier"] = SPAS[0][0].decode()
+                    kw["spa_identifier"] = SPAS[0][0].decode("latin1")
                 elif mode == 2:
                     kw["spa_address"] = SPAS[0][1][0]
                 elif mode == 3:
@@ -201,7 +202,13 @@ def threaded_dedup(sx):
     """GeckoLocator._on_discovered: one step from an arbitrary list of already known spas"""
     from geckolib.locator import GeckoLocator
     from geckolib.driver import GeckoHelloProtocolHandler
-    loc = GeckoLocator("02ac6d28-42d0-41e3-ad22-274d0aa491da")     # the constructor opens no socket, starts no thread
+    # the constructor opens no socket, starts no thread; the requested identifier may be given as text or as bytes
+    want = sx.choice("spa_to_find", 4)
+    kw = {}
+    if want:
+        ident = [SPAS[0][0], SPAS[1][0], b"SPAff:ff:ff:ff:ff:ff"][want - 1]
+        kw["spa_to_find"] = ident.decode("latin1") if sx.choice("as_text", 2) else ident
+    loc = GeckoLocator("02ac6d28-42d0-41e3-ad22-274d0aa491da", **kw)
     known = sx.choice("known", 3)
     h = GeckoHelloProtocolHandler(b"")
     for i in range(known):
@@ -215,6 +222,13 @@ def threaded_dedup(sx):
     ids = [s.identifier for s in loc.spas]
     sx.check(len(set(ids)) == len(ids), "thr.each-spa-listed-once", lambda: str(ids))
     sx.check(len(loc.spas) == before + (0 if who < known else 1), "thr.new-spa-added-once")
+    # "returns as soon as a specifically requested spa has answered": the found flag says exactly that
+    if want:
+        answered = [SPAS[i][0] for i in range(known)] + [SPAS[who][0]]
+        sx.check(loc._has_found_spa == (ident in answered), "thr.found-iff-the-requested-spa-answered",
+                 lambda: f"found={loc._has_found_spa} requested={ident} answered={answered}")
+    else:
+        sx.check(not loc._has_found_spa, "thr.no-early-return-without-a-request")
 
 
 def units(tier):
